@@ -379,6 +379,13 @@ func newFromKanji(level Level, data []byte) (*QRCode, error) {
 
 	version := calcVersion(level, segments)
 	if version == 0 {
+		// the mode selection minimises a cost in sixths of a bit while every segment is
+		// rounded up to whole bits, so its choice can come out a few bits longer than
+		// plain byte mode: before giving up, try the payload as a single byte-mode segment.
+		segments = []Segment{{Mode: ModeBytes, Data: append([]byte(nil), data...)}}
+		version = calcVersion(level, segments)
+	}
+	if version == 0 {
 		return nil, errors.New("qrcode: data too large")
 	}
 
